@@ -111,6 +111,8 @@ pub fn classing(name: &str, k: usize) -> Classing {
             custom_policy,
         ),
         "single" => Classing::new(&[(Class(0), k)], Class(0), single_policy),
+        // class 0 has one slot more than class 1 (with as many slots as trees a class never reserves on its own)
+        "uneven" => Classing::new(&[(Class(0), k + 1), (Class(1), k)], Class(1), zeroed_policy),
         _ => panic!("unknown classing {name}"),
     }
 }
